@@ -15,7 +15,7 @@ IsEmptyLit(n) == n.op = "lit" /\ n.s = "" /\ n.t = ""
 RECURSIVE HasEmptyLit(_, _, _)
 HasEmptyLit(g, n, fuel) ==
   CASE n.op = "lit" -> IsEmptyLit(n)
-    [] n.op \in {"ref", "user", "user2"} -> FALSE
+    [] n.op \in {"ref", "user", "user2", "user3"} -> FALSE
     [] n.op \in {"seq", "alt"} -> \E i \in 1..Len(n.kids) : HasEmptyLit(g, n.kids[i], fuel)
     [] n.op \in {"grp", "cap", "neg", "look"} -> HasEmptyLit(g, n.kid, fuel)
     [] n.op = "prod" -> fuel > 0 /\ HasEmptyLit(g, BodyOf(g, n.p), fuel - 1)
@@ -24,7 +24,7 @@ HasEmptyLit(g, n, fuel) ==
 RECURSIVE NullableWith(_, _, _)
 NullableWith(g, n, NP) ==
   CASE n.op = "lit" -> IsEmptyLit(n)
-    [] n.op \in {"ref", "neg", "user", "user2"} -> FALSE
+    [] n.op \in {"ref", "neg", "user", "user2", "user3"} -> FALSE
     [] n.op = "look" -> TRUE
     [] n.op = "seq" -> \A i \in 1..Len(n.kids) : NullableWith(g, n.kids[i], NP)
     [] n.op = "alt" -> \E i \in 1..Len(n.kids) : NullableWith(g, n.kids[i], NP)
@@ -42,7 +42,7 @@ NullableProds(g, NP, fuel) ==
 
 RECURSIVE LeftCalls(_, _, _), SeqLeft(_, _, _, _)
 LeftCalls(g, n, NP) ==
-  CASE n.op \in {"lit", "ref", "user", "user2"} -> {}
+  CASE n.op \in {"lit", "ref", "user", "user2", "user3"} -> {}
     [] n.op = "seq" -> SeqLeft(g, n.kids, 1, NP)
     [] n.op = "alt" -> UNION {LeftCalls(g, n.kids[i], NP) : i \in 1..Len(n.kids)}
     [] n.op \in {"grp", "cap", "neg", "look"} -> LeftCalls(g, n.kid, NP)
@@ -57,7 +57,7 @@ Reach(E, S, fuel) == LET S2 == S \cup UNION {E[p] : p \in S} IN IF S2 = S \/ fue
 
 RECURSIVE AllCalls(_, _)
 AllCalls(g, n) ==
-  CASE n.op \in {"lit", "ref", "user", "user2"} -> {}
+  CASE n.op \in {"lit", "ref", "user", "user2", "user3"} -> {}
     [] n.op \in {"seq", "alt"} -> UNION {AllCalls(g, n.kids[i]) : i \in 1..Len(n.kids)}
     [] n.op \in {"grp", "cap", "neg", "look"} -> AllCalls(g, n.kid)
     [] n.op = "prod" -> {n.p}
